@@ -19,6 +19,8 @@ KEY_DM = SEQ + ":Sequence.deltaMax"
 
 
 def run(ck, prog):
+    from props.common import check_memos
+    ck.attempt(check_memos, ck, prog)
     ck.explanation = (
         "Sequence.kappa is enumerated into its decision table with delta() and deltaMax() as atoms D and DM; "
         "the table is compared with the stated one over D >= 0, DM >= 0 by exact linear feasibility (conditions are "
@@ -63,8 +65,8 @@ def run(ck, prog):
     ck.ob("ALG-receiver", construct, bool(ok), expected="self.delta() and self.deltaMax() without arguments",
           found=[unparse(c) for c in calls], slot="receiver", where=fk.loc())
     # ---- SIGN: delta() >= 0
-    _delta_nonneg(ck, prog)
-    _dmax_nonneg(ck, prog)
+    ck.attempt(_delta_nonneg, ck, prog)
+    ck.attempt(_dmax_nonneg, ck, prog)
     check_api(ck, prog, [("get_kappa", "kappa", None), ("get_delta", "delta", None),
                          ("get_deltaMax", "deltaMax", None)])
     ck.floor("kappa paths", ck.analysed.get("kappa paths", 0), 3)
@@ -135,7 +137,11 @@ def _dmax_nonneg(ck, prog):
                     and not v.args:
                 kind = "delta()"
             writes.append((kind, unparse(n), n.lineno))
-    ok = writes and all(k != "other" for k, _, _ in writes)
+    other = [s for k, s, _ in writes if k == "other"]
+    if other:
+        # the sign of an unrecognised source cannot be established: undecided, never a verdict
+        raise Undecided("delta-max cache written from a source whose sign lcsa cannot establish: %s" % other[:3], f.loc())
+    ok = bool(writes)
     ck.ob("SIGN", construct, bool(ok), expected="cache writes are 0, the sentinel -1, or <candidate>.delta()",
           found=[(k, s) for k, s, _ in writes][:12], slot="deltaMax>=0", where=f.loc(),
           note="with C03's non-empty candidate families the sentinel never survives a computation")
